@@ -215,6 +215,15 @@ func (P *Prog) proveBounds(path []ast.Node, info *types.Info) (bool, string) {
 		if why, ok := P.rangeSameExprProver(fc, path, info, X, I); ok {
 			return true, why
 		}
+		// (d') for i := range Y { … X[i] … } with a live fact len(Y) == len(X)
+		if why, ok := P.rangeLenEqProver(fc, path, info, X, I); ok {
+			return true, why
+		}
+		// (d") for i := range p { … q[i] … } where p, q are parameters and every caller
+		// passes a q made with len(p)
+		if why, ok := P.parallelParamProver(fc, path, info, X, I); ok {
+			return true, why
+		}
 		// (e) I < len(X) from guards, and I >= 0
 		if fc.idxBelowLen(I, X) {
 			if fc.nonNeg(I, 0) {
@@ -374,7 +383,7 @@ func (P *Prog) splitUnderContains(fc *factCtx, X ast.Expr) bool {
 		if !ok || !f.pol || qualifiedCallee(fc.info, c) != "strings.Contains" || len(c.Args) != 2 {
 			continue
 		}
-		if normExpr(fc.info, c.Args[0]) == normExpr(fc.info, split.Args[0]) && normExpr(fc.info, c.Args[1]) == normExpr(fc.info, split.Args[1]) {
+		if idExpr(fc.info, c.Args[0]) == idExpr(fc.info, split.Args[0]) && idExpr(fc.info, c.Args[1]) == idExpr(fc.info, split.Args[1]) {
 			// the guard must have been evaluated on the same string value: the Split happens inside the guarded region
 			if split.Pos() > f.from {
 				return true
@@ -402,7 +411,7 @@ func (P *Prog) isStringsIndexOf(fc *factCtx, id *ast.Ident, S ast.Expr) bool {
 	if obj == nil || fc.fn == nil {
 		return false
 	}
-	want := normExpr(fc.info, S)
+	want := idExpr(fc.info, S)
 	n, okAll := 0, true
 	ast.Inspect(fc.fn, func(nd ast.Node) bool {
 		if as, ok := nd.(*ast.AssignStmt); ok {
@@ -424,7 +433,7 @@ func (P *Prog) isStringsIndexOf(fc *factCtx, id *ast.Ident, S ast.Expr) bool {
 					continue
 				}
 				c, ok := as.Rhs[i].(*ast.CallExpr)
-				if !ok || len(c.Args) != 2 || normExpr(fc.info, c.Args[0]) != want {
+				if !ok || len(c.Args) != 2 || idExpr(fc.info, c.Args[0]) != want {
 					okAll = false
 					continue
 				}
@@ -464,7 +473,7 @@ func (P *Prog) sortLessProver(path []ast.Node, info *types.Info, X, I ast.Expr) 
 		default:
 			return "", false
 		}
-		if normExpr(info, call.Args[0]) != normExpr(info, X) {
+		if idExpr(info, call.Args[0]) != idExpr(info, X) {
 			return "", false
 		}
 		if fl.Type.Params == nil {
@@ -523,7 +532,7 @@ func (P *Prog) rangeParamProver(path []ast.Node, info *types.Info, X, I ast.Expr
 			return "", false
 		}
 		arg, ok := isLenOf(info, rc.Args[0])
-		if !ok || normExpr(info, arg) != normExpr(info, X) {
+		if !ok || idExpr(info, arg) != idExpr(info, X) {
 			return "", false
 		}
 		// the indexed expression must not be reassigned inside the closure
@@ -553,7 +562,7 @@ func (P *Prog) rangeSameExprProver(fc *factCtx, path []ast.Node, info *types.Inf
 		if !ok || info.Defs[kid] != obj {
 			continue
 		}
-		if normExpr(info, rs.X) != normExpr(info, X) {
+		if idExpr(info, rs.X) != idExpr(info, X) {
 			return "", false
 		}
 		if fc.fn == nil {
@@ -572,7 +581,7 @@ func (P *Prog) rangeSameExprProver(fc *factCtx, path []ast.Node, info *types.Inf
 					if _, isIdx := l.(*ast.IndexExpr); isIdx {
 						continue
 					}
-					if normExpr(info, l) == normExpr(info, X) {
+					if idExpr(info, l) == idExpr(info, X) {
 						bad = true
 					}
 					if lid, ok := l.(*ast.Ident); ok && (info.Uses[lid] == obj) {
@@ -598,6 +607,259 @@ func (P *Prog) rangeSameExprProver(fc *factCtx, path []ast.Node, info *types.Inf
 		return "index is the key of `range " + normExpr(info, rs.X) + "` over the same expression, not reassigned in the body", true
 	}
 	return "", false
+}
+
+// rangeOf finds the enclosing `for I := range Y` that defines the index identifier I and
+// checks that neither I nor Y's root is reassigned inside its body.
+func rangeOf(path []ast.Node, info *types.Info, I ast.Expr) *ast.RangeStmt {
+	id, ok := I.(*ast.Ident)
+	if !ok {
+		return nil
+	}
+	obj := info.Uses[id]
+	for _, n := range path {
+		rs, ok := n.(*ast.RangeStmt)
+		if !ok {
+			continue
+		}
+		kid, ok := rs.Key.(*ast.Ident)
+		if !ok || info.Defs[kid] != obj || obj == nil {
+			continue
+		}
+		switch info.TypeOf(rs.X).Underlying().(type) {
+		case *types.Slice, *types.Array:
+		default:
+			return nil
+		}
+		bad := false
+		root := rootIdent(rs.X)
+		ast.Inspect(rs.Body, func(nd ast.Node) bool {
+			switch s := nd.(type) {
+			case *ast.AssignStmt:
+				for _, l := range s.Lhs {
+					if lid, ok := l.(*ast.Ident); ok {
+						if info.Uses[lid] == obj || (root != nil && info.Uses[lid] != nil && info.Uses[lid] == info.Uses[root]) {
+							bad = true
+						}
+					} else if _, isIdx := l.(*ast.IndexExpr); !isIdx && idExpr(info, l) == idExpr(info, rs.X) {
+						bad = true
+					}
+				}
+			case *ast.IncDecStmt:
+				if lid, ok := s.X.(*ast.Ident); ok && info.Uses[lid] == obj {
+					bad = true
+				}
+			}
+			return true
+		})
+		if bad {
+			return nil
+		}
+		return rs
+	}
+	return nil
+}
+
+// rangeLenEqProver: the index is the key of `range Y` and a live guard gives len(Y) == len(X).
+func (P *Prog) rangeLenEqProver(fc *factCtx, path []ast.Node, info *types.Info, X, I ast.Expr) (string, bool) {
+	rs := rangeOf(path, info, I)
+	if rs == nil {
+		return "", false
+	}
+	wy, wx := idExpr(info, rs.X), idExpr(info, X)
+	for _, f := range fc.cmps() {
+		if f.op != token.EQL {
+			continue
+		}
+		a, ok1 := isLenOf(info, f.x)
+		b, ok2 := isLenOf(info, f.y)
+		if ok1 && ok2 && idExpr(info, a) == wy && idExpr(info, b) == wx {
+			return "index is the key of `range " + normExpr(info, rs.X) + "` and a dominating guard gives len(" + normExpr(info, rs.X) + ") == len(" + normExpr(info, X) + ")", true
+		}
+	}
+	return "", false
+}
+
+// parallelParamProver: X and the ranged slice are both parameters of the enclosing declared
+// function, neither is reassigned in it, the function is only ever called directly, and at
+// every call site the argument for X is a local defined once as make(T, len(<argument for
+// the ranged parameter>)) and not reassigned before the call.
+func (P *Prog) parallelParamProver(fc *factCtx, path []ast.Node, info *types.Info, X, I ast.Expr) (string, bool) {
+	rs := rangeOf(path, info, I)
+	if rs == nil {
+		return "", false
+	}
+	xid, ok1 := X.(*ast.Ident)
+	yid, ok2 := rs.X.(*ast.Ident)
+	if !ok1 || !ok2 {
+		return "", false
+	}
+	var decl *ast.FuncDecl
+	for _, n := range path {
+		if _, isLit := n.(*ast.FuncLit); isLit {
+			return "", false
+		}
+		if d, ok := n.(*ast.FuncDecl); ok {
+			decl = d
+		}
+	}
+	if decl == nil || decl.Body == nil {
+		return "", false
+	}
+	paramIndex := func(id *ast.Ident) int {
+		k := 0
+		for _, f := range decl.Type.Params.List {
+			for _, nm := range f.Names {
+				if info.Defs[nm] == info.Uses[id] {
+					return k
+				}
+				k++
+			}
+		}
+		return -1
+	}
+	xi, yi := paramIndex(xid), paramIndex(yid)
+	if xi < 0 || yi < 0 {
+		return "", false
+	}
+	// neither parameter is reassigned in the function
+	reassigned := false
+	ast.Inspect(decl.Body, func(nd ast.Node) bool {
+		if as, ok := nd.(*ast.AssignStmt); ok {
+			for _, l := range as.Lhs {
+				if lid, ok := l.(*ast.Ident); ok && (info.Uses[lid] == info.Uses[xid] || info.Uses[lid] == info.Uses[yid]) {
+					reassigned = true
+				}
+			}
+		}
+		if u, ok := nd.(*ast.UnaryExpr); ok && u.Op == token.AND {
+			if lid, ok := u.X.(*ast.Ident); ok && (info.Uses[lid] == info.Uses[xid] || info.Uses[lid] == info.Uses[yid]) {
+				reassigned = true
+			}
+		}
+		return true
+	})
+	if reassigned {
+		return "", false
+	}
+	fobj := info.Defs[decl.Name]
+	if fobj == nil {
+		return "", false
+	}
+	sites := 0
+	okAll := true
+	for _, pkg := range P.Pkgs {
+		for _, file := range pkg.Syntax {
+			var stack []ast.Node
+			ast.Inspect(file, func(nd ast.Node) bool {
+				if nd == nil {
+					stack = stack[:len(stack)-1]
+					return true
+				}
+				stack = append(stack, nd)
+				id, ok := nd.(*ast.Ident)
+				if !ok || pkg.TypesInfo.Uses[id] != fobj {
+					return true
+				}
+				// the use must be the function position of a call
+				var call *ast.CallExpr
+				for k := len(stack) - 2; k >= 0 && k >= len(stack)-3; k-- {
+					if c, ok := stack[k].(*ast.CallExpr); ok {
+						fun := ast.Node(c.Fun)
+						if fun == stack[k+1] {
+							call = c
+						}
+						break
+					}
+					if _, isSel := stack[k].(*ast.SelectorExpr); !isSel {
+						break
+					}
+				}
+				if call == nil || len(call.Args) <= xi || len(call.Args) <= yi || call.Ellipsis.IsValid() {
+					okAll = false
+					return true
+				}
+				sites++
+				if !madeWithLenOf(pkg.TypesInfo, stack, call, call.Args[xi], call.Args[yi]) {
+					okAll = false
+				}
+				return true
+			})
+		}
+	}
+	if !okAll || sites == 0 {
+		return "", false
+	}
+	return fmt.Sprintf("index is the key of `range %s`; %s and %s are parameters never reassigned here, and at each of the %d call site(s) of %s the argument for %s is make(…, len(<argument for %s>))", yid.Name, xid.Name, yid.Name, sites, decl.Name.Name, xid.Name, yid.Name), true
+}
+
+// madeWithLenOf: at the call, argument b is a local assigned exactly once, by
+// `b := make(T, len(a))` in the same function, with a not reassigned between that and the call.
+func madeWithLenOf(info *types.Info, stack []ast.Node, call *ast.CallExpr, b, a ast.Expr) bool {
+	bid, ok := b.(*ast.Ident)
+	if !ok {
+		return false
+	}
+	bobj := info.Uses[bid]
+	var fn ast.Node
+	for k := len(stack) - 1; k >= 0; k-- {
+		switch stack[k].(type) {
+		case *ast.FuncDecl, *ast.FuncLit:
+			fn = stack[k]
+		}
+		if fn != nil {
+			break
+		}
+	}
+	if fn == nil || bobj == nil {
+		return false
+	}
+	defs, good := 0, false
+	var defPos token.Pos
+	ast.Inspect(fn, func(nd ast.Node) bool {
+		switch s := nd.(type) {
+		case *ast.AssignStmt:
+			for i, l := range s.Lhs {
+				lid, ok := l.(*ast.Ident)
+				if !ok || (info.Defs[lid] != bobj && info.Uses[lid] != bobj) {
+					continue
+				}
+				defs++
+				if len(s.Rhs) != len(s.Lhs) {
+					continue
+				}
+				mk, ok := s.Rhs[i].(*ast.CallExpr)
+				if !ok || len(mk.Args) != 2 {
+					continue
+				}
+				if f, ok := mk.Fun.(*ast.Ident); !ok || f.Name != "make" {
+					continue
+				} else if _, isB := info.Uses[f].(*types.Builtin); !isB {
+					continue
+				}
+				if arg, ok := isLenOf(info, mk.Args[1]); ok && idExpr(info, arg) == idExpr(info, a) {
+					good = true
+					defPos = s.End()
+				}
+			}
+		case *ast.ValueSpec:
+			for _, nm := range s.Names {
+				if info.Defs[nm] == bobj {
+					defs++
+				}
+			}
+		case *ast.UnaryExpr:
+			if lid, ok := s.X.(*ast.Ident); ok && s.Op == token.AND && info.Uses[lid] == bobj {
+				defs += 2
+			}
+		}
+		return true
+	})
+	if defs != 1 || !good {
+		return false
+	}
+	fc := &factCtx{info: info, fn: fn, use: call.Pos()}
+	return !fc.assignedBetween(objsIn(info, a), defPos, call.Pos(), nil)
 }
 
 // ---------------------------------------------------------------------------------------
@@ -1227,6 +1489,11 @@ func pkgKey(key string) string {
 	pkg := fn
 	if i := strings.Index(fn, "."); i >= 0 {
 		pkg = fn[:i]
+	}
+	// a map loop is identified by the type it ranges over, not by where the map came from
+	// (parameter, field, local): moving the loop into a helper changes only the latter
+	if strings.HasPrefix(construct, "range ") && !strings.HasPrefix(construct, "range over") {
+		construct = "range " + construct[strings.LastIndex(construct, " ")+1:]
 	}
 	return pkg + ":" + construct
 }
